@@ -170,6 +170,7 @@ def run(prog, run, only_restart_rules=False):
     r5_order(prog, run)
     r6_discard(prog, run)
     r7_dom_structure(prog, run)
+    r8_keepalive(prog, run)
 
 
 APPENDS = ('append', 'operator+=', 'push_back')
@@ -625,3 +626,56 @@ def r7_dom_structure(prog, run):
             else:
                 run.ok(rid, f.loc(i), '%s on %s' % (s['name'], why if origin else 'a node not derived from a parameter (%s)' % why), nontrivial=origin == 'fresh')
     run.extra['dom_restructuring_sites'] = nsites
+
+
+# --------------------------------------------------------------------------- R8: a whitespace keep-alive read alone is not an element
+def r8_keepalive(prog, run):
+    rid = run.rule('C03.R8', 'a read that holds only whitespace is reported as a null element (a blank sharing a read with a stanza is skipped by the XML parser): in every slot '
+                             'connected to the socket\'s element signal, whatever closes the connection or records an error is control-dependent on a test of the received element '
+                             '- a catch-all "nobody claimed it" error would end the session for a keep-alive that happens to be read alone', floor=2)
+    sig = SOCK + '::stanzaReceived'
+    pd = prog.fn(SOCK + '::processData')
+    if not any(pd.cname(n) == sig and n.get('args') and pd.nodes[pd.skip(n['args'][0])]['k'] == 'construct' and not pd.nodes[pd.skip(n['args'][0])].get('args') for _, n in pd.calls()):
+        run.instance(rid)
+        run.ok(rid, pd.loc(), 'processData does not report whitespace-only reads as elements')
+        return
+    slots = []
+    for c in connects(prog):
+        if (c['signal'] or {}).get('qname') != sig:
+            continue
+        if c['kind'] == 'lambda':
+            slots += list(c['target'])
+        else:
+            g = prog.fns.get((c['target'] or {}).get('usr'))
+            if g is not None:
+                slots.append(g)
+    slots = [g for g in slots if g.entry is not None and g.params]
+    if not slots:
+        raise AnalysisBroken('C03.R8: no slot with a body is connected to %s' % sig)
+    for g in slots:
+        derived = set()
+        for i, n in enumerate(g.nodes):
+            if n['k'] == 'decl':
+                for d in n.get('decls', []):
+                    if d.get('init') is not None and any(g.nodes[j]['k'] == 'var' and g.nodes[j].get('vk') == 'param' and g.nodes[j].get('pidx') == 0 for j in g.walk(d['init'])):
+                        derived.add(d.get('var'))
+        sinks = [i for i, n in g.calls() if (g.cname(n) or '').endswith(('::disconnectFromHost', '::setError', '::abort'))]
+        run.instance(rid)
+        bad = None
+        for i in sinks:
+            tested = False
+            for c, p in g.atomic_assertions_at(i):
+                for j in g.walk(c):
+                    m = g.nodes[j]
+                    if m['k'] == 'var' and ((m.get('vk') == 'param' and m.get('pidx') == 0) or m.get('decl') in derived):
+                        tested = True
+            if not tested:
+                bad = i
+                break
+        if bad is not None:
+            run.violation(rid, '%s#catch-all-error' % g.outer_name(), g.loc(bad),
+                          '%s reaches %s without having looked at the received element: a whitespace keep-alive that is read alone arrives here as a null element, is claimed by '
+                          'nobody and ends the connection, while the same blank in one read with a stanza is skipped - the outcome depends on the read boundaries'
+                          % (g.display()[:50], g.fmt(bad, inline=False)[:50]))
+        else:
+            run.ok(rid, g.loc(), '%s: %d error / close site(s), each behind a test of the element' % (g.display()[:50], len(sinks)))
